@@ -194,6 +194,16 @@ def cases(draw, painted=False, small=False):
         case["debug_log"] = True  # root logger at DEBUG during the run (API) / --log-level DEBUG (CLI)
     elif k == 1:
         case["fuse_twice"] = True  # the fused assemblies are asked for twice; the second answer is judged
+    elif k == 2:
+        # the input assembly object was used before, for an edited map with whole scaffolds inverted or tagged Haplotig
+        em = draw(gen.model_map(inp, t, cut=draw(st.booleans())))
+        for _pn, rows in em:
+            frs = [r for r in rows if r[0] == "F"]
+            if len(frs) == 1 and draw(st.integers(0, 1)) == 0:
+                frs[0][4] = -1
+                if "Painted" not in frs[0][5] and draw(st.booleans()):
+                    frs[0][5] = sorted(set(frs[0][5]) | {"Haplotig"})
+        case["earlier_map"] = em
     return case
 
 
